@@ -51,6 +51,8 @@ def numtheoLine (line : String) : String :=
   match splitLine line with
   | none => "BAD empty"
   | some (key, args, res) =>
+    if res == ["CRASH"] then s!"DIFF kind=SPEC model=- (the call aborted inside the library) | {line.trimAscii.toString}" else
+    if res == ["TIMEOUT"] then s!"DIFF kind=SPEC model=- (the call did not return within the per-case time limit) | {line.trimAscii.toString}" else
     if res == ["NOINST"] then s!"DIFF kind=SPEC model=- (the member function does not instantiate on this tree) | {line.trimAscii.toString}" else
     match parseAll args, parseAll res with
     | some a, some r =>
@@ -89,9 +91,20 @@ def numtheoLine (line : String) : String :=
         let m := lowestPrimRoot n
         v (o == (lowestPrimRootSpec n.toNat : Int)) (o == m) (hexInt m)
       | "primroot", [n], [o] =>
-        if n < 2 ∨ n > bruteMax then "PRE" else
+        if n < 2 then "PRE" else
+        if n > bruteMax then
+          -- large modulus: the criterion of `is_prim_root_iff` (order φ(n) ⇔ test over the prime factors of φ(n)), factor lists by trial division
+          let mf := primRoot drvRnd n
+          v (isPrimRoot o n) (match primRootDet n with | some w => o == w | none => (match mf with | some w' => isPrimRoot w' n | none => false)) (showOpt (primRootDet n))
+        else
         let m := primRootDet n
-        v (isPrimRootSpec (o % n).toNat n.toNat) (match m with | some w => o == w | none => true) (showOpt m)
+        -- the full model (random candidates from drvRnd) must agree with primRootDet where that is defined and pass the checker elsewhere
+        let mf := primRoot drvRnd n
+        let mfOk := match m, mf with
+          | some w, some w' => w == w'
+          | none, some w' => isPrimRootSpec (w' % n).toNat n.toNat
+          | _, none => false
+        v (isPrimRootSpec (o % n).toNat n.toNat) ((match m with | some w => o == w | none => true) && mfOk) (showOpt m ++ "/" ++ showOpt mf)
       | "primrootp", [n], [o] =>
         if n < 2 ∨ n > bruteMax then "PRE" else
         v (isPrimRootSpec (o % n).toNat n.toNat) true "-"
